@@ -16,11 +16,11 @@ typedef __float128 Q;
 typedef __int128 I;
 static grid::Run R;
 #if A_SIZE_REAL + 0 == 4
-static const double EPS = FLT_EPSILON;
-static const int BIGSCALE = 60, SMALLSCALE = 20;
+static const double EPS = FLT_EPSILON, RMIN_ = FLT_MIN;
+static const int BIGSCALE = 60, SMALLSCALE = 20, UNISCALE = 50;
 #else
-static const double EPS = DBL_EPSILON;
-static const int BIGSCALE = 200, SMALLSCALE = 20;
+static const double EPS = DBL_EPSILON, RMIN_ = DBL_MIN;
+static const int BIGSCALE = 200, SMALLSCALE = 20, UNISCALE = 300;
 #endif
 static std::string num(double v)
 {
@@ -263,7 +263,7 @@ static void check_plu(const Mat &M, const std::vector<std::vector<long>> &rhs)
         Q scale = 1;
         for (int i = 0; i < n; ++i) { Q rsum = 0; for (int j = 0; j < n; ++j) { rsum += absLU[(size_t)(i * n + j)]; } scale *= rsum; }
         Q tol = 16 * n * n * (Q)EPS * scale;
-        if (std::isfinite((double)det) && std::isfinite((double)exact) && !(fabsq((Q)det - exact) <= tol + 4 * n * (Q)EPS * fabsq(exact))) { R.viol(cls + "|det", "a_real_plu_det = " + num((double)det) + " but the exact determinant is " + num((double)exact), in); return; }
+        if (std::isfinite((double)det) && std::isfinite((double)exact) && (exact == 0 || fabsq(exact) >= (Q)RMIN_) && !(fabsq((Q)det - exact) <= tol + 4 * n * (Q)EPS * fabsq(exact))) { R.viol(cls + "|det", "a_real_plu_det = " + num((double)det) + " but the exact determinant is " + num((double)exact), in); return; }
         if (det_int != 0 && std::isfinite((double)ln))
         {
             Q lnx = logq(fabsq(exact));
@@ -400,7 +400,8 @@ static void check_sym(const Mat &M, const std::vector<std::vector<long>> &rhs, b
         Q scale = 1;
         for (int i = 0; i < n; ++i) { Q rsum = 0; for (int j = 0; j < n; ++j) { rsum += absprod(i, j); } scale *= rsum; }
         Q tol = 16 * n * n * (Q)EPS * scale;
-        if (std::isfinite((double)det) && std::isfinite((double)exact) && !(fabsq((Q)det - exact) <= tol + 8 * n * (Q)EPS * fabsq(exact))) { R.viol(cls + "|det", std::string("a_real_") + name + "_det = " + num((double)det) + " but the exact determinant is " + num((double)exact), in); return; }
+        if (std::isfinite((double)det) && std::isfinite((double)exact) && (exact == 0 || fabsq(exact) >= (Q)RMIN_) && !(fabsq((Q)det - exact) <= tol + 8 * n * (Q)EPS * fabsq(exact))) { R.viol(cls + "|det", std::string("a_real_") + name + "_det = " + num((double)det) + " but the exact determinant is " + num((double)exact), in); return; }
+        if (exact != 0 && !std::isfinite((double)ln)) { R.viol(cls + "|lndet|not-finite", std::string("a_real_") + name + "_lndet = " + num((double)ln) + " although ln|det| = " + num((double)logq(fabsq(exact))) + " is finite (the sum of the logarithms of the pivots cannot overflow)", in); return; }
         if (exact != 0 && std::isfinite((double)ln))
         {
             Q lnx = logq(fabsq(exact));
@@ -452,6 +453,15 @@ static void with_scalings(Mat M, bool symmetric, bool scale, const std::function
                 f(C);
             }
         }
+    }
+    // uniform scaling of the whole matrix by 2^(+-2*UNISCALE): every pivot is huge (tiny), so the PRODUCT of the pivots leaves the
+    // floating-point range although each factor, the solution, the inverse and the log-determinant are representable
+    for (int ex : {UNISCALE, -UNISCALE})
+    {
+        Mat S = M;
+        for (int k = 0; k < M.n; ++k) { S.rs[(size_t)k] = ex; S.cs[(size_t)k] = symmetric ? ex : 0; }
+        if (!symmetric) { for (int k = 0; k < M.n; ++k) { S.rs[(size_t)k] = 2 * ex; } }
+        f(S);
     }
 }
 
@@ -513,8 +523,34 @@ int main(int argc, char **argv)
                 }
             } while (std::next_permutation(perm.begin(), perm.end()));
         }
+        // ---- duplicated rows with pivot values v = 1..100 (for many of them v * (1/v) != 1, so an elimination that multiplies by the
+        //      reciprocal of the pivot does not cancel the copy exactly); a third, independent row in every position
+        for (int n = 2; n <= 3; ++n)
+        {
+            for (long v = 1; v <= 100; ++v)
+            {
+                if (!R.shard.mine(item++)) { continue; }
+                for (int a = 0; a < n; ++a)
+                {
+                    for (int b = a + 1; b < n; ++b)
+                    {
+                        for (long sgn : {1L, -1L})
+                        {
+                            static const long DUP[3] = {0, 7, 3}, OTHER[3] = {1, 2, 5};
+                            Mat M;
+                            M.n = n;
+                            M.rs.assign((size_t)n, 0);
+                            M.cs.assign((size_t)n, 0);
+                            M.e.assign((size_t)(n * n), 0);
+                            for (int i = 0; i < n; ++i) { for (int j = 0; j < n; ++j) { M.e[(size_t)(i * n + j)] = (i == a || i == b) ? (j == 0 ? sgn * v : DUP[j]) : OTHER[j]; } }
+                            check_plu(M, rhs_set(n, false));
+                        }
+                    }
+                }
+            }
+        }
         uint64_t e1 = n_eval, t1 = n_nt;
-        R.part(std::string("LU with partial pivoting: ALL matrices of order 1..3 over {-2..2} (5^9 for n=3), order 4 over ") + (thorough ? "{-1,0,1} (3^16)" : "{0,1} (2^16)") + ", P*L*U families of order 5" + (thorough ? " and 6" : "") + " under every row permutation; row/column scalings by 2^+-20 and 2^+-" + std::to_string(BIGSCALE) + "; right-hand sides: unit vectors and all vectors over {-1,0,1}", e1, t1);
+        R.part(std::string("LU with partial pivoting: ALL matrices of order 1..3 over {-2..2} (5^9 for n=3), order 4 over ") + (thorough ? "{-1,0,1} (3^16)" : "{0,1} (2^16)") + ", P*L*U families of order 5" + (thorough ? " and 6" : "") + " under every row permutation; duplicated rows with pivot values 1..100; uniform scalings 2^+-" + std::to_string(2 * UNISCALE) + "; row/column scalings by 2^+-20 and 2^+-" + std::to_string(BIGSCALE) + "; right-hand sides: unit vectors and all vectors over {-1,0,1}", e1, t1);
         // ---- symmetric matrices
         n_eval = n_nt = 0;
         for (int n = 1; n <= 4; ++n)
